@@ -204,30 +204,50 @@ class _CanonicalBranches(ast.NodeTransformer):
             return self._guard(st, cond if not flipped else _negated(pos), arm_t) + arm_f
         return self._guard(st, pos if flipped else _negated(pos), arm_f) + arm_t
 
-    @staticmethod
-    def _loop_guard(st):
+    def _loop_guard(self, st, following=()):
         """`for T in IT: if C: raise E`  ->  `if any(C for T in IT): raise E`  (the element-wise guard as one condition; the
-        first offending element raises either way).  Other loops are returned unchanged."""
+        first offending element raises either way).  `if G: continue` in front of the guard and temporaries of the loop body
+        (not used after the loop) are folded into the condition.  Other loops are returned unchanged."""
         if not isinstance(st, ast.For) or st.orelse or getattr(st, "type_comment", None):
             return st
         body = list(st.body)
         while body and isinstance(body[-1], ast.Continue):
             body = body[:-1]
-        if len(body) == 1 and isinstance(body[0], ast.If) and not body[0].orelse and len(body[0].body) == 1 \
-                and isinstance(body[0].body[0], ast.Raise):
-            gen = ast.GeneratorExp(elt=body[0].test, generators=[ast.comprehension(target=copy.deepcopy(st.target), iter=st.iter,
-                                                                                   ifs=[], is_async=0)])
-            for n in ast.walk(gen.generators[0].target):
-                if isinstance(n, ast.Name):
-                    n.ctx = ast.Store()
-            call = ast.Call(func=ast.Name(id="any", ctx=ast.Load()), args=[gen], keywords=[])
-            new = ast.If(test=call, body=[body[0].body[0]], orelse=[])
-            ast.copy_location(new, st)
-            ast.copy_location(call, st)
-            ast.copy_location(gen, st)
-            ast.fix_missing_locations(new)
-            return new
-        return st
+        if not body:
+            return st
+        last = body[-1]
+        if not (isinstance(last, ast.If) and not last.orelse and len(last.body) == 1 and isinstance(last.body[0], ast.Raise)):
+            return st
+        temps = {}
+        conds = []
+        for b_ in body[:-1]:
+            if isinstance(b_, ast.Assign) and len(b_.targets) == 1 and isinstance(b_.targets[0], ast.Name) \
+                    and b_.targets[0].id not in temps:
+                temps[b_.targets[0].id] = self._subst_names(b_.value, temps)
+            elif isinstance(b_, ast.If) and not b_.orelse and len(b_.body) == 1 and isinstance(b_.body[0], ast.Continue):
+                pos, flipped = _to_positive(copy.deepcopy(b_.test))
+                conds.append(self._subst_names(pos if flipped else _negated(pos), temps))
+            else:
+                return st
+        if temps and (any(self._mentions(x, t_) for t_ in temps for x in following) or
+                      any(self._mentions(last.body[0], t_) for t_ in temps) or
+                      any(self._mentions(st.iter, t_) or self._mentions(st.target, t_) for t_ in temps)):
+            return st
+        conds.append(self._subst_names(last.test, temps))
+        test = conds[0] if len(conds) == 1 else ast.BoolOp(op=ast.And(), values=conds)
+        gen = ast.GeneratorExp(elt=test, generators=[ast.comprehension(target=copy.deepcopy(st.target), iter=st.iter,
+                                                                       ifs=[], is_async=0)])
+        for n in ast.walk(gen.generators[0].target):
+            if isinstance(n, ast.Name):
+                n.ctx = ast.Store()
+        call = ast.Call(func=ast.Name(id="any", ctx=ast.Load()), args=[gen], keywords=[])
+        new = ast.If(test=call, body=[last.body[0]], orelse=[])
+        ast.copy_location(new, st)
+        ast.copy_location(call, st)
+        ast.copy_location(gen, st)
+        ast.copy_location(test, st)
+        ast.fix_missing_locations(new)
+        return new
 
     @staticmethod
     def _mentions(node, name):
@@ -246,10 +266,11 @@ class _CanonicalBranches(ast.NodeTransformer):
                 if not isinstance(lp, ast.For) or lp.orelse or not lp.body:
                     continue
                 body = list(lp.body)
-                cond = None
+                conds = []
                 if len(body) == 1 and isinstance(body[0], ast.If) and not body[0].orelse:
-                    cond, body = body[0].test, list(body[0].body)
-                # temporaries of the loop body (`t = f(x)` used by the fills that follow) are substituted into the fills
+                    conds, body = [body[0].test], list(body[0].body)
+                # temporaries of the loop body (`t = f(x)` used by the fills that follow) are substituted into the fills;
+                # `if G: continue` in front of the fills is the filter `not G` of the comprehension
                 temps = {}
                 fills = []
                 ok = True
@@ -260,20 +281,16 @@ class _CanonicalBranches(ast.NodeTransformer):
                             break
                         temps[b_.targets[0].id] = self._subst_names(b_.value, temps)
                         continue
-                    kind = name = parts = None
-                    if isinstance(b_, ast.Assign) and len(b_.targets) == 1 and isinstance(b_.targets[0], ast.Subscript) \
-                            and isinstance(b_.targets[0].value, ast.Name) and cond is None:
-                        kind, name = "dict", b_.targets[0].value.id
-                        parts = [b_.targets[0].slice, b_.value]
-                    elif isinstance(b_, ast.Expr) and isinstance(b_.value, ast.Call) and isinstance(b_.value.func, ast.Attribute) \
-                            and b_.value.func.attr == "append" and isinstance(b_.value.func.value, ast.Name) \
-                            and len(b_.value.args) == 1 and not b_.value.keywords:
-                        kind, name = "list", b_.value.func.value.id
-                        parts = [b_.value.args[0]]
-                    if kind is None:
+                    if isinstance(b_, ast.If) and not b_.orelse and len(b_.body) == 1 and isinstance(b_.body[0], ast.Continue) \
+                            and not fills:
+                        pos, flipped = _to_positive(copy.deepcopy(b_.test))
+                        conds.append(self._subst_names(pos if flipped else _negated(pos), temps))
+                        continue
+                    fill = self._fill_of(b_)
+                    if fill is None:
                         ok = False
                         break
-                    fills.append((kind, name, [self._subst_names(x, temps) for x in parts]))
+                    fills.append((fill[0], fill[1], [self._subst_names(x, temps) for x in fill[2]]))
                 if not ok or not fills:
                     continue
                 names = [f[1] for f in fills]
@@ -282,7 +299,7 @@ class _CanonicalBranches(ast.NodeTransformer):
                 # the temporaries must be the loop's own (not read after it) - conservatively: not mentioned after the loop
                 if any(self._mentions(x, t_) for t_ in temps for x in out[j + 1:]):
                     continue
-                exprs = [x for f in fills for x in f[2]] + [lp.iter] + ([cond] if cond is not None else [])
+                exprs = [x for f in fills for x in f[2]] + [lp.iter] + conds
                 if any(self._mentions(x, n_) for x in exprs for n_ in names):
                     continue
                 inits = {}
@@ -313,7 +330,7 @@ class _CanonicalBranches(ast.NodeTransformer):
                         if isinstance(n, (ast.Name, ast.Tuple, ast.List, ast.Starred)):
                             n.ctx = ast.Store()
                     gen = [ast.comprehension(target=tgt, iter=copy.deepcopy(lp.iter),
-                                             ifs=[copy.deepcopy(cond)] if cond is not None else [], is_async=0)]
+                                             ifs=[copy.deepcopy(c_) for c_ in conds], is_async=0)]
                     comp = ast.DictComp(key=parts[0], value=parts[1], generators=gen) if kind == "dict" else \
                         ast.ListComp(elt=parts[0], generators=gen)
                     new = ast.Assign(targets=[ast.Name(id=name, ctx=ast.Store())], value=comp)
@@ -327,6 +344,30 @@ class _CanonicalBranches(ast.NodeTransformer):
                 changed = True
                 break
         return out
+
+    def _fill_of(self, b_):
+        """(kind, container, parts) of one statement that adds one element to a container: `X[K] = V`, `X.append(E)`, or a
+        two-armed `if` whose arms each add one element to the same container (the element is then a conditional expression)"""
+        if isinstance(b_, ast.Assign) and len(b_.targets) == 1 and isinstance(b_.targets[0], ast.Subscript) \
+                and isinstance(b_.targets[0].value, ast.Name):
+            return "dict", b_.targets[0].value.id, [b_.targets[0].slice, b_.value]
+        if isinstance(b_, ast.Expr) and isinstance(b_.value, ast.Call) and isinstance(b_.value.func, ast.Attribute) \
+                and b_.value.func.attr == "append" and isinstance(b_.value.func.value, ast.Name) \
+                and len(b_.value.args) == 1 and not b_.value.keywords:
+            return "list", b_.value.func.value.id, [b_.value.args[0]]
+        if isinstance(b_, ast.If) and len(b_.body) == 1 and len(b_.orelse) == 1:
+            a, b = self._fill_of(b_.body[0]), self._fill_of(b_.orelse[0])
+            if a and b and a[:2] == b[:2]:
+                parts = []
+                for x, y in zip(a[2], b[2]):
+                    if ast.dump(x) == ast.dump(y):
+                        parts.append(x)
+                    else:
+                        ie = ast.IfExp(test=copy.deepcopy(b_.test), body=x, orelse=y)
+                        ast.copy_location(ie, b_)
+                        parts.append(ie)
+                return a[0], a[1], parts
+        return None
 
     @staticmethod
     def _subst_names(expr, mapping):
@@ -371,7 +412,8 @@ class _CanonicalBranches(ast.NodeTransformer):
     def _flatten(self, stmts, fn_level=False):
         out = []
         i = 0
-        stmts = self._accumulate_loops([self._loop_guard(x) for x in self._unroll_literal_loops(stmts)])
+        stmts = self._unroll_literal_loops(stmts)
+        stmts = self._accumulate_loops([self._loop_guard(x, stmts[k + 1:]) for k, x in enumerate(stmts)])
         while i < len(stmts):
             st = stmts[i]
             rest = stmts[i + 1:]
@@ -689,8 +731,10 @@ class Repo:
                     cands = [m]
             if not cands:
                 cands = [ci.methods[f.attr] for ci in self.classes.values() if f.attr in ci.methods]
-            if len(cands) == 1 and cands[0].kind == "method":
+            if len(cands) == 1 and cands[0].kind in ("method", "classmethod"):
                 target, recv = cands[0], f.value
+            elif len(cands) == 1 and cands[0].kind == "staticmethod":
+                target, recv = cands[0], None
         elif isinstance(f, ast.Name):
             q = f"{fi.module.name}.{f.id}"
             if q in self.funcs and self.funcs[q].cls is None and self.funcs[q].parent is None:
@@ -747,6 +791,14 @@ class Repo:
         """every path through stmts ends in `return E` (-> `targets = E`) or `raise`; None otherwise"""
         if not stmts:
             return None
+        # guard clauses (`if c: ...; return A` followed by the rest) are the two-armed form `if c: ... else: rest`
+        for i, st in enumerate(stmts[:-1]):
+            if isinstance(st, ast.If) and not st.orelse and _block_terminates(st.body) and \
+                    any(isinstance(n, ast.Return) for n in ast.walk(st)):
+                nested = ast.If(test=st.test, body=st.body, orelse=stmts[i + 1:])
+                ast.copy_location(nested, st)
+                stmts = stmts[:i] + [nested]
+                break
         head, last = stmts[:-1], stmts[-1]
         if any(isinstance(n, ast.Return) for x in head for n in ast.walk(x)):
             return None
